@@ -88,8 +88,9 @@ def add_filter(component, patterns, max_match=MAX_MATCH):
         return dict((k, none_max(da.get(k), db.get(k))) for k in set(da.keys()).union(db.keys()))
 
     def inner(comp, patterns):
-        if comp in _CACHE:
-            del _CACHE[comp]
+        # a filter added to one component also changes the effective filters of the
+        # datasources it depends on or implements, so drop every cached look-up
+        _CACHE.clear()
 
         if not isinstance(patterns, (six.string_types, list, set)):
             raise TypeError("Filter patterns must be of type string, list, or set.")
